@@ -372,7 +372,7 @@ fn sensitivity(rep: &mut Report, r: &mut Rng, n_cases: u64) {
 }
 
 pub fn run(p: &Params) -> Report {
-    let total = p.n(240, 4800);
+    let total = p.n(800, 20000);
     let mine = p.share(total);
     let mut rng = Rng::new(p.shard_seed() ^ 0xC07);
     let mut mon = C07 { rep: Report::new("C07"), case_seed: 0, headers: vec![], r: Rng::new(p.shard_seed() ^ 7) };
@@ -382,8 +382,8 @@ pub fn run(p: &Params) -> Report {
         mon.rep.require("single-component sibling pairs", p.n(100, 2000));
     }
     let mut r2 = Rng::new(p.shard_seed() ^ 0x707);
-    order_independence(&mut mon.rep, &mut r2, p.share(p.n(400, 8000)));
-    sensitivity(&mut mon.rep, &mut r2, p.share(p.n(32, 640)));
+    order_independence(&mut mon.rep, &mut r2, p.share(p.n(1500, 40000)));
+    sensitivity(&mut mon.rep, &mut r2, p.share(p.n(64, 2000)));
     for case in 0..mine {
         let case_seed = rng.next();
         if let Some(only) = p.only_case {
